@@ -115,7 +115,14 @@ ClientMutate(k) ==
   /\ last' = [ev |-> "mut", res |-> "ok", val |-> 0]
   /\ UNCHANGED <<slot, client, gen, cur>>
 
+\* a call addressed to ANOTHER quantity (another name in the same data dictionary / the same variable name on
+\* another grid): the histories of different (name, grid) pairs are independent
+OtherOp ==
+  /\ last' = [ev |-> "other", res |-> "ok", val |-> 0]
+  /\ UNCHANGED <<heap, slot, client, gen, cur>>
+
 Next ==
+  \/ OtherOp
   \/ \E w \in {"ts", "it", "both"}, v \in SetValues : Set(w, v, FALSE)
   \/ \E w \in {"ts", "it", "both"}, v \in AddValues : Set(w, v, TRUE)
   \/ \E l \in LocSet : \E i \in 0..Len(slot[l]) : Get(l, i)
